@@ -130,6 +130,7 @@ class SymSource:
                         r = ctx.query(z3.Not(e))
             if r == "unsat":
                 ctx.checks += 1
+                ctx.cross_check_unsat(z3.Not(e), msg)
                 return True
             if r == "sat":
                 m = ctx.solver.model() if not z3.is_false(e) else ctx.get_model()
